@@ -372,7 +372,7 @@ impl Check for C04 {
   fn level(&self) -> &'static str { "model_checking" }
   fn unit_budget(&self, _t: Tier) -> Duration { Duration::from_secs(20) }
   fn drive(&mut self, tier: Tier, cfg: &PoolCfg, rep: &mut Report) {
-    let shapes: Vec<(usize, usize)> = tier.pick(vec![(1, 3), (3, 1), (2, 2), (2, 3)], vec![(1, 1), (1, 3), (3, 1), (2, 2), (2, 3), (3, 2), (1, 4), (3, 3)]);
+    let shapes: Vec<(usize, usize)> = tier.pick(vec![(1, 3), (3, 1), (2, 2), (2, 3), (3, 2)], vec![(1, 1), (1, 3), (3, 1), (2, 2), (2, 3), (3, 2), (1, 4), (3, 3)]);
     let kinds: Vec<&str> = tier.pick(vec!["f64", "u8"], vec!["f64", "u8", "i64", "string", "bool"]);
     let depth = tier.pick(2, 3);
     let cap_per_level: usize = tier.pick(24, 150);
